@@ -379,6 +379,30 @@ def h_gbx_transform(side, k, padmode="none", align=0):
         prove("transform_back_is_the_pixel_map", And(ex(bk.x) == sx, ex(bk.y) == sy))
 
 
+def h_empty_source(k, axis):
+    """a source image without rows (or columns): the planned source region lies within it (it is
+    empty), whatever the destination and the read-shrink factor"""
+    ov = ovm()
+    from affine import Affine
+
+    import odc.geo.geobox as gbx
+
+    kf = F(k)
+    N = Int("N", 1, 2**31 - 1)
+    Ndy, Ndx = Int("Ndy", 1, 2**31 - 1), Int("Ndx", 1, 2**31 - 1)
+    ox, oy, tx, ty_ = Real("ox"), Real("oy"), Real("tx"), Real("ty")
+    shape = (0, N) if axis == "y" else (N, 0)
+    src = gbx.GeoBox(shape, Affine(rconst(10), 0.0, ox, 0.0, rconst(-10), oy), "epsg:3857")
+    dst = gbx.GeoBox((Ndy, Ndx), Affine(rconst(10 * kf), 0.0, ox + 10 * tx, 0.0, rconst(-10 * kf), oy - 10 * ty_), "epsg:3857")
+    rr = ov.compute_reproject_roi(src, dst)
+    (sy_, sx_), (dy_, dx_) = rr.roi_src, rr.roi_dst
+    kk = _rs(rr)
+    # (the source region may reach the next multiple of read_shrink: for the side without pixels that is 0)
+    prove("roi_src_within_the_empty_image", And(0 <= sx_.start, sx_.stop <= ((shape[1] + kk - 1) // kk) * kk, 0 <= sy_.start, sy_.stop <= ((shape[0] + kk - 1) // kk) * kk))
+    prove("roi_dst_within", And(0 <= dx_.start, dx_.stop <= Ndx, 0 <= dy_.start, dy_.stop <= Ndy))
+    prove("no_destination_pixel_is_planned_from_an_empty_source", Or(dx_.stop <= dx_.start, dy_.stop <= dy_.start))
+
+
 def h_separated(kx, ky, mx, my, padmode, align, axis):
     ov = ovm()
     src, dst, L, t, (Nsy, Nsx, Ndy, Ndx) = mk_pair(kx, ky, mx, my, None, bound=True)
@@ -503,6 +527,10 @@ OBLIGATIONS = [
        functions=("odc.geo.overlap.compute_reproject_roi", "odc.geo.overlap.native_pix_transform", "odc.geo.overlap.GbxPointTransform.__call__", "odc.geo.overlap.GbxPointTransform.back", "odc.geo.overlap._relative_rois", "odc.geo.roi.roi_from_points"),
        bounds="destination 8x4 pixels of 45 degrees, overhang on the north-west or south-east corner 0..1 degree per axis (symbolic); source pixel 45/k, origin and size symbolic (<= 2^31-1); padding None/0/symbolic, align 0/4",
        stubs=("NumpyModel", "CRS.transformer_to_crs: coordinates coincide, geographic input outside +-180/+-90 gives non-finite output (PROJ's contract); PROJ itself outside the claim", "get_scale_at_point replaced by its contract (R7 checks it)"), setup=setup, timeout_ms=30000, deadline_s=2400),
+    Ob("R10_empty_source", h_empty_source, fixed(*[dict(k=k, axis=a) for k in ("1", "2", "3/2", "1/3") for a in ("y", "x")]),
+       descr="a source without rows or without columns: roi_src lies within it (is empty) and no destination pixel is planned, for pasteable and non-pasteable scales and every read-shrink factor",
+       functions=("odc.geo.overlap.compute_reproject_roi", "odc.geo.geobox.GeoBox.zoom_out", "odc.geo.overlap.box_overlap", "odc.geo.roi.scaled_up_roi"),
+       bounds="scale grid; destination size, the other source side, origins and offsets symbolic", stubs=("NumpyModel",), setup=setup, timeout_ms=30000, deadline_s=600),
     Ob("R9_near_unit_scale", h_reproject, fixed(dict(kx="10009/10000", ky="1", mx=1, my=1, padmode="none", align=0, pin="y:aligned")),
        descr="same CRS, destination pixels 0.09 % larger than the source's (inside the paste tolerance stol = 1e-3): the planner reports paste and plans with the scale snapped to 1; needed pixels must still be kept whatever the image width",
        functions=("odc.geo.overlap.compute_reproject_roi", "odc.geo.overlap._can_paste", "odc.geo.math.snap_affine", "odc.geo.overlap.box_overlap"),
